@@ -314,7 +314,7 @@ class SqlImpl(TableImpl):
                 else_=(cls.compile_col_expr(expr.default_val, sqa_expr) if expr.default_val is not None else None),
             )
 
-            if not cls.pdt_type(res.type).is_subtype(expr.dtype()):
+            if not cls.pdt_type(res.type).is_subtype(types.without_const(expr.dtype())):
                 res = res.cast(
                     cls.sqa_type(
                         Int64()
